@@ -163,7 +163,14 @@ func checkC04(c *Ctx) {
 	{
 		var sites []string
 		nScanned := 0
+		// the one allowed go statement: BufferedWriteSyncer's initialiser (the method that creates its bufio writer)
+		// starting the flush loop
 		allowed := "(*go.uber.org/zap/zapcore.BufferedWriteSyncer).initialize"
+		if bws := c.Named(CorePath, "BufferedWriteSyncer"); bws != nil {
+			if roles, ok := discoverBWS(c, bws); ok {
+				allowed = roles.initFn.String()
+			}
+		}
 		sawAllowed := false
 		c.EachRootFunc(func(fn *ssa.Function) {
 			if fn.Pkg != nil && (strings.Contains(fn.Pkg.Pkg.Path(), "/internal/ztest") || strings.HasSuffix(fn.Pkg.Pkg.Path(), "/zaptest")) {
@@ -184,7 +191,7 @@ func checkC04(c *Ctx) {
 			})
 		})
 		c.Check(len(sites) == 0 && nScanned > 300, "R4.7", "logging path", "synchronous", token.NoPos, "%d functions scanned: no go statement or channel send anywhere in zap's non-test library code except the flush loop start (%v); a log call therefore completes its sink write before it returns", nScanned, sites)
-		c.Check(sawAllowed, "R4.7", allowed, "canary-go-statement", token.NoPos, "the scanner does see the one known go statement (BufferedWriteSyncer.initialize)")
+		c.Check(sawAllowed, "R4.7", "BufferedWriteSyncer initialiser", "canary-go-statement", token.NoPos, "the scanner does see the one known go statement (BufferedWriteSyncer.initialize)")
 	}
 	// R4.8
 	c12Rules(c, "", "R4.8", "", "", "")
